@@ -293,7 +293,10 @@ func (s *Store) delete(ctx context.Context, target ocispec.Descriptor) ([]ocispe
 	resolvers := s.tagResolver.Map()
 	indexChanged := false
 	for reference, desc := range resolvers {
-		if content.Equal(desc, target) {
+		// the blob is removed by its digest below, so every reference to that
+		// digest goes with it, whatever media type or annotations the
+		// reference was created with
+		if desc.Digest == target.Digest {
 			s.tagResolver.Untag(reference)
 			indexChanged = true
 		}
